@@ -746,7 +746,8 @@ def make_ctx(env, rec, c):
     if tag == "attr":
         return async_override(env.objs[c[1]], "attr", c[2])
     if tag == "na":
-        return NA()
+        # a subclass, as the docstring suggests, or the class itself ("no yields in this block")
+        return NA() if c[1] % 2 == 0 else NonAsyncContext()
     if tag == "fail":
         return FailCtx(env, c[1], c[2], c[3], bool(c[4]) if len(c) > 4 else False)
     raise AssertionError(c)
@@ -1074,19 +1075,51 @@ class FakeClock(object):
         return self.now
 
 
-def run_program(prog, check_c04=False, check_c06=False, reset=True, options=None, clock=None, capture=True, on_step=None):
+def prepare(prog):
+    """An Env and the (unstarted) root task object of a run that will happen later: task objects may be created long
+    before the computation that runs them, e.g. before an earlier computation on the same thread."""
+    env = Env(prog)
+    root = prog["root"]
+    rec = env.recs[root["id"]] = Rec(root, None, "root")
+    rec.handle = run_task.asynq(env, root)
+    return env
+
+
+def interlude():
+    """what ordinary starting code does between two computations: with-blocks entered and left outside any task"""
+    v = AsyncScopedValue("interlude")
+    with v.override("x"):
+        pass
+    h = Holder(0)
+    with async_override(h, "attr", 1):
+        with _Quiet():
+            pass
+    with NonAsyncContext():
+        pass
+
+
+class _Quiet(AsyncContext):
+    def resume(self):
+        pass
+
+    def pause(self):
+        pass
+
+
+def run_program(prog, check_c04=False, check_c06=False, reset=True, options=None, clock=None, capture=True, on_step=None, prepared=None):
     """Runs the program on asynq. Returns env; env.outcome is ["ok", v] | ["exc", key] | ["escaped", type, text]."""
     if reset:
         reset_process_state()
     if options:
         for k, v in options.items():
             setattr(_debug.options, k, v)
-    env = Env(prog)
+    env = prepared if prepared is not None else Env(prog)
     env.on_step = on_step
     env.check_c04 = check_c04
     env.check_c06 = check_c06
     root = prog["root"]
-    rec = env.recs[root["id"]] = Rec(root, None, "root")
+    rec = env.recs[root["id"]] if prepared is not None else Rec(root, None, "root")
+    env.recs[root["id"]] = rec
     env.waits.append(rec)
     sch = scheduler.get_scheduler()
     env.scheduler = sch
@@ -1176,7 +1209,8 @@ def run_program(prog, check_c04=False, check_c06=False, reset=True, options=None
             elif conv == "wrapper":
                 val = wrapper_task(env, root, rec)
             else:
-                rec.handle = run_task.asynq(env, root)
+                if rec.handle is None:
+                    rec.handle = run_task.asynq(env, root)
                 val = rec.handle.value()
         env.outcome = ["ok", shape(val)]
     except CATCHABLE as e:
